@@ -648,8 +648,9 @@ class Interp:
                 self.call_funcinfo(init, args, kwargs, o, node)
             return o
         if isinstance(f, ExtRef) and isinstance(kwargs.get('out'), Value) and not isinstance(kwargs['out'], (Const, Unknown, Tup)) \
-                and type(kwargs['out']).__module__ != __name__ and type(kwargs['out']).__name__ not in ('Sym', 'Dim', 'Scalar') and getattr(self.dom, 'alias_inplace', True):
+                and type(kwargs['out']).__module__ != __name__ and getattr(self.dom, 'alias_inplace', True):
             # np.<ufunc>(..., out=x): the result is computed as without out=, and x (through every alias of it) becomes that result
+            # (whatever stands for x -- also an elementwise symbol: only an array can be given as out=)
             out = kwargs['out']
             r = self.call_value(f, args, {k: v for k, v in kwargs.items() if k != 'out'}, node, frame)
             if r is not out:
@@ -806,7 +807,21 @@ class Interp:
             return Tup([Const(k) for k in sorted(xs)], 'list')
         return Const(max(xs) if last in ('max', 'amax') else min(xs))
 
+    _UFUNC_BINOP = {'multiply': ast.Mult, 'add': ast.Add, 'subtract': ast.Sub, 'divide': ast.Div, 'true_divide': ast.Div, 'power': ast.Pow,
+                    'floor_divide': ast.FloorDiv, 'mod': ast.Mod, 'remainder': ast.Mod, 'matmul': ast.MatMult}
+
     def _generic_ext(self, dotted, args, kwargs, node):
+        if dotted.startswith('numpy.') and not kwargs:
+            last = dotted[6:]
+            # the function spelling of an operator (np.multiply(a, b) is a * b): whatever the domain makes of the operator
+            if last in self._UFUNC_BINOP and len(args) == 2:
+                return self.binop(self._UFUNC_BINOP[last](), args[0], args[1], node)
+            if last == 'square' and len(args) == 1:
+                return self.binop(ast.Mult(), args[0], args[0], node)
+            if last == 'negative' and len(args) == 1:
+                return self.ev_unary_value(ast.USub(), args[0], node)
+            if last == 'reciprocal' and len(args) == 1:
+                return self.binop(ast.Div(), Const(1), args[0], node)
         if dotted in ('math.ceil', 'math.floor') and args and isinstance(args[0], Const) and isinstance(args[0].v, (int, float)):
             import math
             return Const(getattr(math, dotted.split('.')[1])(args[0].v))
@@ -1239,14 +1254,17 @@ class Interp:
             frame.env[a.asname or a.name] = ExtRef('%s.%s' % (st.module, a.name))
 
     def st_Assign(self, st, frame):
+        w = getattr(self, 'watch', None)
+        reads = None
+        if w and id(st) in w:
+            reads = {x.id: frame.env.get(x.id) for x in ast.walk(st.value) if isinstance(x, ast.Name) and x.id in frame.env}
         v = self.ev(st.value, frame)
         for t in st.targets:
             self.assign(t, v, frame, st)
-        w = getattr(self, 'watch', None)
-        if w and id(st) in w:
-            # a rule asked to see what this statement binds, in whichever frame (helper) it is executed
+        if reads is not None:
+            # a rule asked to see what this statement binds (and what it read), in whichever frame (helper) it is executed
             names = [x.id for t in st.targets for x in ast.walk(t) if isinstance(x, ast.Name)]
-            self.emit('watched', node=st, env={nm: frame.env.get(nm) for nm in names})
+            self.emit('watched', node=st, env={nm: frame.env.get(nm) for nm in names}, reads=reads)
 
     def st_AnnAssign(self, st, frame):
         if st.value is not None:
